@@ -27,7 +27,14 @@ def parseInt : Str → Option Int
   | '-' :: r => (parseNat r).map (fun n => - Int.ofNat n)
   | s => (parseNat s).map Int.ofNat
 
-def renderNat (n : Nat) : Str := Nat.toDigits 10 n
+def digitChar (d : Nat) : Char := Char.ofNat (48 + d)
+
+/-- decimal digits of `n`, most significant first (`fuel > n` suffices) -/
+def renderNatAux : Nat → Nat → Str
+  | 0, _ => []
+  | f + 1, n => if n < 10 then [digitChar n] else renderNatAux f (n / 10) ++ [digitChar (n % 10)]
+
+def renderNat (n : Nat) : Str := renderNatAux (n + 1) n
 
 /-- Python `str(int)` -/
 def renderInt (i : Int) : Str :=
@@ -180,10 +187,6 @@ def atomParse (T : Tables) (s : Str) : Except Err Atom :=
     | .error e => .error e
 
 /-! ## solver: ExpressionSolver with operators `par`, `mul`, `truediv` -/
-
-/-- ASCII part of `str.isspace` -/
-def isSpace (c : Char) : Bool :=
-  c == ' ' || (9 ≤ c.toNat && c.toNat ≤ 13) || (28 ≤ c.toNat && c.toNat ≤ 31)
 
 /-- `str.strip()` -/
 def strip (s : Str) : Str := dropTrail isSpace (s.dropWhile isSpace)
